@@ -57,6 +57,65 @@ def _apply(program: Program, edits) -> Dict[str, str]:
     return out
 
 
+def _refactor_overrides(program: Program, diff_path: str) -> Dict[str, str]:
+    """Apply a unified diff to a throw-away copy of the files it touches (outside /repo and /verif) and return
+    {relative path: new source}; {} when the diff does not apply to the current tree."""
+    import re
+    import shutil
+    import tempfile
+
+    txt = open(diff_path, encoding="utf-8").read()
+    files = sorted(set(re.findall(r"^\+\+\+ b/(\S+)", txt, re.M)))
+    tmp = tempfile.mkdtemp(prefix="pysm-thorough-")
+    try:
+        for rel in files:
+            mod = program.by_rel.get(rel)
+            if mod is None:
+                return {}
+            os.makedirs(os.path.dirname(os.path.join(tmp, rel)), exist_ok=True)
+            open(os.path.join(tmp, rel), "w", encoding="utf-8").write(mod.source)
+        r = subprocess.run(["patch", "-p1", "-s", "--no-backup-if-mismatch", "-i", diff_path], cwd=tmp, capture_output=True, text=True)
+        if r.returncode != 0:
+            return {}
+        out = {rel: open(os.path.join(tmp, rel), encoding="utf-8").read() for rel in files}
+        for src in out.values():
+            ast.parse(src)
+        return out
+    except (SyntaxError, OSError):
+        return {}
+    finally:
+        shutil.rmtree(tmp, ignore_errors=True)
+
+
+def refactor_silence(ctx: Ctx, mod) -> None:
+    """Behaviour-preserving refactorings written by independent agents (selftest/refactors/*.diff) are applied to the
+    in-memory tree; the property's rules must stay silent on every one that applies."""
+    import glob
+
+    rep = ctx.rep
+    if any(o.status == "violation" for o in rep.obligations):
+        return
+    applied = skipped = 0
+    for d in sorted(glob.glob(os.path.join(VERIF, "selftest", "refactors", "*.diff"))):
+        over = _refactor_overrides(ctx.p, d)
+        if not over:
+            skipped += 1
+            continue
+        prog = Program(ctx.p.root, package=ctx.p.package, overrides=over)
+        sub = Ctx(ctx.prop, "quick", program=prog, write_evidence=False)
+        try:
+            for rule in mod.RULES:
+                rule(sub)
+        except AnalysisError as ex:
+            raise AnalysisError(f"refactoring `{os.path.basename(d)}` (behaviour-preserving) makes {ctx.prop} inconclusive: {ex}")
+        viol = [o for o in sub.rep.obligations if o.status == "violation"]
+        if viol:
+            raise AnalysisError(f"over-strict rule: behaviour-preserving refactoring `{os.path.basename(d)}` is reported by "
+                                f"{sorted({o.rule for o in viol})}")
+        applied += 1
+    rep.extra["refactor_silence"] = {"refactorings_applied_and_silent": applied, "not_applicable_to_this_tree": skipped}
+
+
 def sensitivity(ctx: Ctx, mod) -> None:
     rep = ctx.rep
     prop = ctx.prop
@@ -222,4 +281,5 @@ def handler_sweep(ctx: Ctx) -> None:
 def run(ctx: Ctx, mod) -> None:
     handler_sweep(ctx)
     sensitivity(ctx, mod)
+    refactor_silence(ctx, mod)
     mypy_crosscheck(ctx)
